@@ -22,8 +22,11 @@ class Tok:
 def handle(c):
     k = c['k']
     if k == 'chan':
-        a = ChannelIdentifier(_id=c['a'][0], _channel=CH[c['a'][1]])
-        b = ChannelIdentifier(_id=c['b'][0], _channel=CH[c['b'][1]])
+        # qubit indices as Python ints or as numpy integers (operations built in an np.arange loop), on either side
+        import numpy as np
+        mk = {'int': int, 'np': np.int64}
+        a = ChannelIdentifier(_id=mk[c.get('ta', 'int')](c['a'][0]), _channel=CH[c['a'][1]])
+        b = ChannelIdentifier(_id=mk[c.get('tb', 'int')](c['b'][0]), _channel=CH[c['b'][1]])
         return {'eq': bool(a == b), 'in': bool(a in [b])}
     if k == 'qubit':
         a, b = QubitIDObj(c['a']), QubitIDObj(c['b'])
